@@ -433,6 +433,12 @@ theorem Leaf.eqB_iff (a b : Leaf) (ha : a.simple) (hb : b.simple) :
 
 /-! ### hashes of sets -/
 
+/-- members whose hash is a plain tuple key in the model (`FiniteSet` members hash through a
+nested frozenset, which `Leaf.hkPlain` does not model) -/
+def Leaf.plainHash : Leaf → Prop
+  | .finite _ => False
+  | _ => True
+
 /-- hash key of a non-composite, non-finite set is determined by its `==` key -/
 theorem Leaf.hkPlain_of_key (heap : Nat → String) (a b : Leaf) (h : a.key = b.key) :
     a.hkPlain heap = b.hkPlain heap := by
@@ -482,5 +488,50 @@ theorem map_eq_of_map_key_eq {α κ β : Type} (k : α → κ) (g : α → β)
   | a :: l1, b :: l2, h => by
       simp only [List.map_cons, List.cons.injEq] at h ⊢
       exact ⟨hg a b h.1, map_eq_of_map_key_eq k g hg l1 l2 h.2⟩
+
+/-! ### element values, selections -/
+
+theorem castVal?_eq {T : DTables} {d : DType} {r x : Rat} (h : castVal? T d r = some x) :
+    x = castVal T d r := by
+  unfold castVal? at h
+  split at h
+  · cases h
+  · split at h
+    · cases h
+    · cases h; rfl
+
+theorem mapM_castVal?_eq (T : DTables) (d : DType) :
+    ∀ (v v' : List Rat), v.mapM (castVal? T d) = some v' → v' = v.map (castVal T d)
+  | [], v', h => by simp at h; simp [h]
+  | r :: v, v', h => by
+      simp only [List.mapM_cons] at h
+      cases hr : castVal? T d r with
+      | none => simp [hr] at h
+      | some x =>
+        cases hv : v.mapM (castVal? T d) with
+        | none => simp [hr, hv] at h
+        | some w =>
+          simp [hr, hv] at h
+          subst h
+          simp [castVal?_eq hr, mapM_castVal?_eq T d v w hv]
+
+theorem selList_getElem? {α} (l : List α) :
+    ∀ (idx : List Nat) (sel : List α), selList l idx = some sel →
+      ∀ j : Nat, sel[j]? = (idx[j]?).bind (fun (i : Nat) => l[i]?)
+  | [], sel, h, j => by
+      simp [selList] at h; subst h; simp
+  | i :: idx, sel, h, j => by
+      simp only [selList, List.mapM_cons] at h
+      cases hi : l[i]? with
+      | none => simp [hi] at h
+      | some x =>
+        cases hr : idx.mapM (fun (i : Nat) => l[i]?) with
+        | none => simp [hi, hr] at h
+        | some rest =>
+          simp [hi, hr] at h
+          subst h
+          cases j with
+          | zero => simp [hi]
+          | succ j => simpa using selList_getElem? l idx rest hr j
 
 end OdlModel.Spaces
